@@ -11,7 +11,7 @@ if ! git apply "$P" 2>/dev/null; then
     patch -p1 --fuzz=3 -s < "$P" || { echo "PATCH-FAILED $P"; cd /; git -C /repo worktree remove --force "$WT"; rm -rf "$OUT"; exit 3; }
   fi
 fi
-cd /verif
+cd "${VERIF_HOME:-/verif}"
 for id in "$@"; do
   out=$(VERIF_REPO="$WT" VERIF_OUT="$OUT" ./check "$id" ${TIER:-quick} 2>&1); rc=$?
   echo "$id rc=$rc violations=$(echo "$out" | grep -c '^VIOLATION') $(echo "$out" | grep 'BROKEN' | head -1 | cut -c1-300)"
